@@ -240,8 +240,83 @@ def coded_enums():
     return out
 
 
+def opaque_name_unit(cls):
+    """string-coded names (ALPN / NPN): the real _parse on an arbitrary buffer; whenever it returns a member, the real
+    compose() of that member gives back exactly the bytes that were consumed (a name differing in case, padding or
+    encoding is never mapped to a registered member)"""
+    def thunk():
+        P = E.cur()
+        buf, facts = V.base_seq('buf')
+        for f in facts:
+            P.assume(f)
+        P.inputs['buf'] = buf
+        P.buf = buf
+        P.top_class = cls
+        m, n = I.call(cls.parse_immutable, [buf], {})
+        from cryptoparser.common.parse import ComposerBinary
+        size = cls.get_param().item_num_size
+
+        def recompose():
+            # how the library writes a name item (VectorEnumCodeString.compose): length prefix + the member's code
+            c = I.construct(ComposerBinary, [], {})
+            I.call(I.getattr_(c, 'compose_string_enum_coded'), [m, size], {})
+            return I.getattr_(c, 'composed_bytes')
+        out = vc.outcome_of(recompose)
+        if out.kind != 'ret':
+            from checks import e1 as _e1
+            _e1.record_path_fact(P, 'C10 %s: the decoded member composes (raised %s)' % (cls.__name__, out.value.cls.__name__), False)
+            return
+        vc.oblige_equal(P, 'C10 %s: the decoded member re-encodes to exactly the bytes that were consumed' % cls.__name__,
+                        ops.as_seq(out.value).copy('bytes'), V.slice_seq(buf, 0, ops.as_int(n)).copy('bytes'))
+
+    def native(data):
+        try:
+            m, n = cls.parse_immutable(data)
+        except Exception:
+            return dict(reproduced=False)
+        from cryptoparser.common.parse import ComposerBinary
+        c = ComposerBinary()
+        c.compose_string_enum_coded(m, cls.get_param().item_num_size)
+        w = bytes(c.composed_bytes)
+        if w != bytes(data[:n]):
+            return dict(reproduced=True, call='%s.parse_immutable(bytes.fromhex(%r))[0] written back with compose_string_enum_coded' % (cls.__name__, bytes(data).hex()),
+                        expected=bytes(data[:n]).hex(), observed=w.hex(), key='name not preserved')
+        return dict(reproduced=False)
+
+    def replay(inputs):
+        from checks import e1 as _e1
+        data = _e1.bytes_of(inputs)
+        return native(data) if data is not None else dict(reproduced=False)
+
+    def search(seed, hints=()):
+        for m in cls.get_enum_class():
+            name = m.value.code
+            for variant in (name.upper(), name.capitalize(), name + ' ', ' ' + name, name.swapcase()):
+                try:
+                    raw = variant.encode('utf-8')
+                except Exception:
+                    continue
+                if len(raw) < 256:
+                    w = native(bytes([len(raw)]) + raw)
+                    if w.get('reproduced'):
+                        return w
+        return dict(reproduced=False)
+
+    def run():
+        from checks import e1 as _e1
+        _e1.setup()
+        return vc.run_unit(cls.__name__, thunk, max_paths=2000)
+    return Unit('names/%s' % cls.__name__, run, replay=replay, search=search, clause='C10 string-coded names',
+                functions=['OpaqueEnumParsable._parse[%s]' % cls.__name__, 'OpaqueEnumComposer.compose'])
+
+
 def units(tier, seed):
     out = []
+    from cryptoparser.common import base as _RB
+    from checks import census as _census
+    for c in _census.concrete_parsables():
+        if issubclass(c, _RB.OpaqueEnumParsable):
+            out.append(opaque_name_unit(c))
     for fac in factories():
         out.append(Unit('refine/%s' % fac.__name__, refine_unit(fac), clause='C10 decode contract',
                         functions=['NByteEnumParsable._parse[%s]' % fac.__name__]))
